@@ -4,7 +4,8 @@ import core, gen, gen_units as G, canon
 from core import hx, unhx
 
 LEAN_MODULE = 'QM.Props.C03'
-THEOREMS = ['Parse.C03_parse_render', 'Parse.C03_spelling_independent', 'Parse.C03_repeated_headers', 'Parse.C03_counterexample', 'Parse.C03_text_before_first_header_rejected', 'Parse.parseUnit_skip_ws', 'Parse.parseUnit_skip_comment', 'Parse.C03_continuation_into_empty_line', 'Parse.C03_continuation_comment_then_empty_line']
+THEOREMS = ['Parse.C03_parse_render', 'Parse.C03_spelling_independent', 'Parse.C03_repeated_headers', 'Parse.C03_counterexample', 'Parse.C03_text_before_first_header_rejected', 'Parse.parseUnit_skip_ws', 'Parse.parseUnit_skip_comment', 'Parse.C03_continuation_into_empty_line', 'Parse.C03_continuation_comment_then_empty_line',
+            'Conform.line_continuation_replacement', 'Conform.pv_joins_with_the_constant']
 ASSUMPTIONS = [
     'Parse.parse is a hand-written character-level model of parser.rs (+ add_raw validation); tied to SystemdUnit::load_from_str by the parse correspondence on renderings, mutated renderings, the repository\'s case files and random text (full ordered dump or error)',
     'theorem renderings: section headers first (no entries before the first header), every line newline-terminated; lines before the first section and a missing final newline are covered by the oracle only',
